@@ -164,3 +164,53 @@ func VerifC10Reset() {
 	verifAssert("timer-expired-after-reset", rb.timer.Before(clock.Now().UTC()))
 	verifReach("end")
 }
+
+// C10-O3: bounded convergence through the API. Two servers with symbolic configured
+// weights; `a` adjustments with symbolic outlier patterns; then six adjustments with equal
+// ratings: the weights are back in the configured proportions.
+func VerifC10Converge() {
+	a := verifParam("a")
+	wmax := verifParam("wmax")
+	verifClockInit("t0")
+	rr, _ := New(nil)
+	var meters []*vfMeter
+	rb, err := NewRebalancer(rr, RebalancerBackoff(time.Second), RebalancerMeter(func() (Meter, error) {
+		m := &vfMeter{ready: true}
+		meters = append(meters, m)
+		return m, nil
+	}))
+	verifAssert("rebalancer-ok", err == nil)
+	n := 2
+	orig := make([]int, n)
+	for i := 0; i < n; i++ {
+		w := verifInt(verifName("w", i))
+		verifAssume(verifAnd(w >= 1, w <= wmax))
+		orig[i] = verifConcretize(w, 1, wmax)
+		verifAssert("upsert-ok", rb.UpsertServer(&url.URL{Scheme: "http", Host: verifName("s", i)}, Weight(orig[i])) == nil)
+	}
+	for step := 0; step < a; step++ {
+		bad := verifInt(verifName("bad", step)) // which server is the outlier (-1: none)
+		verifAssume(verifAnd(bad >= -1, bad < n))
+		bad = verifConcretize(bad, -1, n-1)
+		for i, s := range rb.servers {
+			s.meter.(*vfMeter).rating = 0
+			if i == bad {
+				s.meter.(*vfMeter).rating = 1
+			}
+		}
+		clock.Advance(2 * time.Second)
+		rb.adjustWeights()
+	}
+	for step := 0; step < 6; step++ {
+		for _, s := range rb.servers {
+			s.meter.(*vfMeter).rating = 0.1
+		}
+		clock.Advance(2 * time.Second)
+		rb.adjustWeights()
+	}
+	w0, ok0 := rr.ServerWeight(rb.servers[0].url)
+	w1, ok1 := rr.ServerWeight(rb.servers[1].url)
+	verifAssert("weights-present", verifAnd(ok0, ok1))
+	verifAssert("converged-to-configured-proportions", w0*orig[1] == w1*orig[0])
+	verifReach("end")
+}
